@@ -228,6 +228,12 @@ def handleRt (inp out : Toks) : String :=
       | [hex] :: outs =>
         if outs.length != 8 then "bad output" else
         let got := joinToks outs
+        -- the executable property is judged on the implementation's outcomes first: it needs neither
+        -- the model's outcomes nor the ParseFloat table
+        let early : Option String := match canonV v with
+          | some g => if isFinite g then (judge8 fmt g got).map ("propfail " ++ ·) else none
+          | none => none
+        if let some pf := early then pf else
         match modelOutcomes t mtext with
         | none => "diff table-miss"
         | some mo =>
